@@ -111,6 +111,39 @@ Theorem C13_run_fuel_irrelevant : forall n m s r,
 Proof. exact run_fuel_irrelevant. Qed.
 Print Assumptions C13_run_fuel_irrelevant.
 
+(* slot initialisation: INITSLOT succeeds iff NEITHER the local NOR the argument slot of the executing context exists yet - one
+   guard for the pair (INITSLOT 1,0 followed by INITSLOT 0,1 faults like a plain repetition) -, the counts are not both
+   zero and the arguments are on the stack; INITSSLOT iff the script has no static slot yet and the count is not zero *)
+Theorem C13_initslot_once : forall e nl na d,
+  exec_data e INITSLOT [nl; na] d <> DFault <->
+  d_local d = None /\ d_args d = None /\ ~ (nl = 0 /\ na = 0) /\ (0 < na -> na <= zlen (d_es d)).
+Proof. exact initslot_once. Qed.
+Print Assumptions C13_initslot_once.
+Theorem C13_initsslot_once : forall e n d, exec_data e INITSSLOT [n] d <> DFault <-> d_static d = None /\ n <> 0.
+Proof. exact initsslot_once. Qed.
+Print Assumptions C13_initsslot_once.
+(* a CALLed context starts without local and argument slots and shares the static slot of its script; a loaded script
+   starts without any slot (statics are per script) *)
+Theorem C13_call_fresh_slots : forall s pos s',
+  call s pos = Some s' ->
+  f_local (s_fr s') = None /\ f_args (s_fr s') = None /\ sc_static (s_sc s') = sc_static (s_sc s) /\ s_frames s' = s_fr s :: s_frames s.
+Proof. exact call_fresh_slots. Qed.
+Print Assumptions C13_call_fresh_slots.
+Theorem C13_load_script_fresh_slots : forall s prog sid rv,
+  let s' := load_script s prog sid rv in
+  f_local (s_fr s') = None /\ f_args (s_fr s') = None /\ sc_static (s_sc s') = None /\
+  s_outer s' = (s_sc s, (s_fr s, s_frames s)) :: s_outer s.
+Proof. exact load_script_fresh_slots. Qed.
+Print Assumptions C13_load_script_fresh_slots.
+(* INITSLOT 1 0; INITSLOT 0 1 (an argument on the stack) faults at the second instruction; INITSSLOT 1 in a callee of a
+   script that has statics faults; INITSLOT in caller and callee is fine *)
+Example C13_initslot_examples :
+  let f r := match r with Faulted g => Some g | _ => None end in
+  f (run 5 (init_state [17; 87; 1; 0; 87; 0; 1] 1%N 1 100000)) = Some 129 /\
+  f (run 5 (init_state [86; 1; 52; 3; 64; 86; 1] 1%N 1 100000)) = Some 544 /\
+  match run 9 (init_state [87; 1; 0; 52; 3; 64; 87; 1; 0; 64] 1%N 1 100000) with Halted _ => True | _ => False end.
+Proof. vm_compute. repeat split; reflexivity. Qed.
+
 (* determinism across VM reuse (the node runs all transactions of a block on one VM with vm.Reset in between): Reset, which
    clears the invocation and evaluation stacks, the uncaught-exception register, the item counter, the gas consumed, the
    limit and the price getter, followed by SetPriceGetter / SetGasLimit / LoadScript (vm_prepare: touches nothing else)
